@@ -153,6 +153,25 @@ struct GPending { // C15: consequence that must be visible once the reporting so
 	int expect;
 };
 
+struct Win6 { // C06: one full reload of a socket that already holds data
+	int si;
+	uint64_t start, end; // stamps
+	bool done = false, success = false;
+	std::set<PfxRec> oldp, newp, otherp;
+	std::set<SpkiRec> olds, news, others;
+};
+
+struct Read6 {
+	int reader;
+	uint64_t inv, ret;
+	bool spki;
+	PfxRec q; // route (asn, prefix, len)
+	SpkiRec k; // (asn, ski)
+	int state; // validation state
+	std::set<SpkiRec> keys;
+	int rc;
+};
+
 struct World {
 	const J &plan;
 	RunCtx &ctx;
@@ -177,7 +196,16 @@ struct World {
 	int xid_next = 0;
 	std::vector<GInfo> ginfo;
 	std::vector<GPending> gpend;
-	bool oper_busy = false; // an operator call (stop/add/remove group) is in progress
+	bool oper_busy = false;
+	// C06
+	bool c06 = false;
+	uint64_t stamp = 0;
+	std::vector<Win6> wins;
+	std::vector<Read6> reads6;
+	int reload_active = -1; // index into wins
+	bool readers_stop = false;
+	int reader_cv = 0;
+	unsigned reads_per_wake = 40; // an operator call (stop/add/remove group) is in progress
 	// digests for metamorphic comparison
 	uint64_t dig_states = 0xcbf29ce484222325ull, dig_sent = 0xcbf29ce484222325ull;
 	World(const J &p, RunCtx &c) : plan(p), ctx(c), chunk(1), lat(1) {}
